@@ -27,7 +27,8 @@ def install():
             st['count'] += 1
             if st['limit'] is not None and st['count'] > st['limit']:
                 st['limit'] = None      # raise once
-                raise NonTermination('more than %d token-reader calls' % st['count'])
+                raise NonTermination('more than %d token-reader / node-conversion calls'
+                                     % st['count'])
             return orig(self, *a, **kw)
         counted.__name__ = orig.__name__
         counted.__qualname__ = getattr(orig, '__qualname__', orig.__name__)
@@ -36,6 +37,14 @@ def install():
     for name in _WRAPPED:
         if hasattr(LatexTokenReader, name):     # (a renamed primitive simply is not counted)
             setattr(LatexTokenReader, name, wrap(getattr(LatexTokenReader, name)))
+    # the conversion stage of latex2text counts into the same budget: one unit per node rendered
+    # (a node rendered 2^depth times is work that does not end either)
+    try:
+        from pylatexenc.latex2text import LatexNodes2Text
+        if hasattr(LatexNodes2Text, 'node_to_text'):
+            LatexNodes2Text.node_to_text = wrap(LatexNodes2Text.node_to_text)
+    except ImportError:
+        pass
     _state['installed'] = True
 
 
